@@ -1,0 +1,144 @@
+//! Verification facade (feature `verif-hooks`): packet / handshake crafting toolkit for the
+//! simulation harness's wire tap and adversary. Thin wrappers over the crate-private codec and
+//! crypto functions; nothing here is used by the handler itself.
+
+use super::{crypto, session::Session};
+use crate::{
+    node_info::NodeContact,
+    packet::{ChallengeData, MessageNonce, Packet, PacketHeader, PacketKind},
+    Enr, ProtocolIdentity,
+};
+use enr::{CombinedKey, CombinedPublicKey, NodeId};
+use parking_lot::RwLock;
+use std::{convert::TryFrom, sync::Arc};
+
+/// A decoded datagram.
+#[derive(Debug, Clone, PartialEq, Eq)]
+pub struct Decoded {
+    pub iv: u128,
+    pub message_nonce: MessageNonce,
+    pub kind: PacketKind,
+    pub message: Vec<u8>,
+    pub authenticated_data: Vec<u8>,
+}
+
+/// `Packet::decode` with the id of the node the datagram is addressed to.
+pub fn decode_packet(dst_id: &NodeId, data: &[u8]) -> Result<Decoded, String> {
+    let (packet, authenticated_data) =
+        Packet::decode(dst_id, ProtocolIdentity::default(), data).map_err(|e| format!("{e:?}"))?;
+    Ok(Decoded {
+        iv: packet.iv,
+        message_nonce: packet.header.message_nonce,
+        kind: packet.header.kind,
+        message: packet.message,
+        authenticated_data,
+    })
+}
+
+fn build(iv: u128, message_nonce: MessageNonce, kind: PacketKind, message: Vec<u8>) -> Packet {
+    Packet {
+        iv,
+        header: PacketHeader {
+            message_nonce,
+            protocol_identity: ProtocolIdentity::default(),
+            kind,
+        },
+        message,
+    }
+}
+
+/// `Packet::encode` of an arbitrary packet.
+pub fn encode_packet(
+    iv: u128,
+    message_nonce: MessageNonce,
+    kind: PacketKind,
+    message: Vec<u8>,
+    dst_id: &NodeId,
+) -> Vec<u8> {
+    build(iv, message_nonce, kind, message).encode(dst_id)
+}
+
+/// The authenticated data (IV || unmasked header) of a packet.
+pub fn authenticated_data(iv: u128, message_nonce: MessageNonce, kind: PacketKind) -> Vec<u8> {
+    build(iv, message_nonce, kind, Vec::new()).authenticated_data()
+}
+
+/// ID-nonce signature as the initiator of a handshake computes it.
+pub fn sign_id_nonce(
+    key: &CombinedKey,
+    challenge_data: &[u8],
+    ephem_pubkey: &[u8],
+    dst_id: &NodeId,
+) -> Option<Vec<u8>> {
+    let cd = ChallengeData::try_from(challenge_data).ok()?;
+    crypto::sign_nonce(key, &cd, ephem_pubkey, dst_id).ok()
+}
+
+/// ID-nonce signature verification as the recipient of a handshake performs it.
+pub fn verify_id_signature(
+    public_key: &CombinedPublicKey,
+    ephem_pubkey: &[u8],
+    challenge_data: &[u8],
+    dst_id: &NodeId,
+    sig: &[u8],
+) -> bool {
+    match ChallengeData::try_from(challenge_data) {
+        Ok(cd) => crypto::verify_authentication_nonce(public_key, ephem_pubkey, &cd, dst_id, sig),
+        Err(_) => false,
+    }
+}
+
+/// Initiator side of the key agreement: fresh ephemeral key, ECDH with the recipient's static
+/// public key. Returns (initiator key, recipient key, ephemeral public key).
+pub fn initiator_keys(
+    local_id: &NodeId,
+    remote: &NodeContact,
+    challenge_data: &[u8],
+) -> Option<([u8; 16], [u8; 16], Vec<u8>)> {
+    let cd = ChallengeData::try_from(challenge_data).ok()?;
+    crypto::generate_session_keys(local_id, remote, &cd).ok()
+}
+
+/// Recipient side of the key agreement. Returns (initiator key, recipient key).
+pub fn recipient_keys(
+    local_key: &CombinedKey,
+    local_id: &NodeId,
+    remote_id: &NodeId,
+    challenge_data: &[u8],
+    ephem_pubkey: &[u8],
+) -> Option<([u8; 16], [u8; 16])> {
+    let cd = ChallengeData::try_from(challenge_data).ok()?;
+    crypto::derive_keys_from_pubkey(local_key, local_id, remote_id, &cd, ephem_pubkey).ok()
+}
+
+pub fn encrypt(key: &[u8; 16], nonce: MessageNonce, msg: &[u8], aad: &[u8]) -> Option<Vec<u8>> {
+    crypto::encrypt_message(key, nonce, msg, aad).ok()
+}
+
+pub fn decrypt(key: &[u8; 16], nonce: MessageNonce, msg: &[u8], aad: &[u8]) -> Option<Vec<u8>> {
+    crypto::decrypt_message(key, nonce, msg, aad).ok()
+}
+
+/// The real initiator-side handshake construction (`Session::encrypt_with_header`): returns the
+/// encoded handshake datagram for `remote`.
+pub fn real_handshake(
+    remote: &NodeContact,
+    local_key: CombinedKey,
+    updated_enr: Option<Enr>,
+    local_id: &NodeId,
+    challenge_data: &[u8],
+    message: &[u8],
+) -> Option<Vec<u8>> {
+    let cd = ChallengeData::try_from(challenge_data).ok()?;
+    let (packet, _session) = Session::encrypt_with_header(
+        remote,
+        Arc::new(RwLock::new(local_key)),
+        updated_enr,
+        local_id,
+        ProtocolIdentity::default(),
+        &cd,
+        message,
+    )
+    .ok()?;
+    Some(packet.encode(&remote.node_id()))
+}
